@@ -7,8 +7,9 @@ observed in two independent ways on every state:
 
   (pc)   `rustfmt <options> --print-config current <PATH>`   (all options at once)
   (fmt)  formatting a probe file in place; its layout reveals tab_spaces,
-         hard_tabs, max_width (two lines of known length), brace_style and the
-         effective style edition (version-sorted import list).
+         hard_tabs, max_width (two lines of known length), brace_style, the
+         effective style edition (version-sorted import list) and, through
+         blank_lines_upper_bound (unique per config file), WHICH file was used.
 
 Parts (all run in both tiers, with larger bounds in `thorough`):
 
@@ -18,14 +19,16 @@ Parts (all run in both tiers, with larger bounds in `thorough`):
                 + fixpoint: `--print-config current|default` text fed back as a file reproduces itself
   D  alias      deprecated aliases map to their successors unless the successor is set
   E  widths     max_width x use_small_heuristics x width option {unset, below, above}:
-                every printed width <= max_width; file == --config (6 repetitions: hash order of
-                `--config` keys is not controllable from outside) == file+`--config max_width`
+                every printed width <= max_width; file == --config (6 processes, up to 24: the hash
+                order in which `--config` keys are applied is not controllable from outside)
+                == width option in the file + `--config max_width=N`
 
-The reference model (`resolve_slot`, `effective`, `render_probe`) is written from the
-property text, Configurations.md, README.md and `rustfmt --help`; nothing is taken from
-src/config.  Tables that are *data* of the subject (option names, accepted enum variants,
-the defaults of each style edition) are read from `--help=config` / an empty-directory
-`--print-config current --style-edition N` run, i.e. from the simplest possible state.
+The reference model (`discovery_chain`, `a_model`, `effective`, `render_probe`) is written from
+the property text, Configurations.md, README.md and `rustfmt --help`; nothing is taken from
+src/config.  Tables that are *data* of the subject (option names, accepted enum variants, the
+defaults of each style edition) are read from `--help=config` and from the simplest possible
+state (one `style_edition = "N"` line in the file's own directory, cross-checked against
+`--style-edition N` and `--config style_edition=N` in an empty tree: see `tables`).
 
 usage: c14.py quick|thorough
        c14.py --replay <file>
@@ -73,16 +76,14 @@ ASSUMPTIONS = [
 # generic helpers
 # ============================================================================
 
-_tls = threading.local()
 _counter = itertools.count()
 SCRATCH = None
-INVOCATIONS = itertools.count()  # transitions
 _inv_lock = threading.Lock()
 _inv_total = [0]
 
 
-def rf(argv, cwd, home, stdin=None):
-    """One subject invocation."""
+def rf(argv, cwd, home):
+    """One subject invocation (= one transition)."""
     with _inv_lock:
         _inv_total[0] += 1
     rc, out, err = common.run([RUSTFMT] + argv, cwd=cwd, env=base_env(home=home))
@@ -126,10 +127,6 @@ def cli_val(v):
     if len(v) >= 2 and v[0] == '"' and v[-1] == '"':
         return v[1:-1]
     return v
-
-
-def abnormal(rc, err):
-    return rc < 0 or rc > 2 or "panicked" in err or "internal compiler error" in err
 
 
 WIDTH_OPTS = [
@@ -918,6 +915,7 @@ def c_run(s, T, verbose=False):
         detail = {"spec": s, "file": toml_of({opt: val}), "cli": flags + cfg}
         rejected = c_pc[0] != 0 and "invalid key=val pair" in c_pc[2]
         res["cli_rejected"] = rejected
+        res["file_accepted"] = f_pc[0] == 0
         if verbose:
             print("file variant: rustfmt.toml =", repr(toml_of({opt: val})), " flags:", flags)
             print("  print-config rc", f_pc[0], "line:", parse_cfg(f_pc[1]).get(opt), "stderr:", f_pc[2].strip()[-300:])
@@ -1235,17 +1233,33 @@ def e_states(thorough):
 
 
 def tables():
+    """The defaults of every style edition, measured three ways that the property says are equivalent:
+    `style_edition = "N"` in a file next to the input, `--style-edition N`, `--config style_edition=N`."""
     root = new_dir()
     home = os.path.join(root, "home")
     wtree(root, {"home/keep": "", "e/x.rs": "fn main() {}\n"})
-    T = {"se_text": {}, "se_defaults": {}}
+    T = {"se_text": {}, "se_defaults": {}, "violations": []}
     for se in ("2015", "2018", "2021", "2024", "2027"):
-        rc, out, err = rf(["--style-edition", se, "--print-config", "current", os.path.join(root, "e/x.rs")], root, home)
-        if rc != 0:
-            print(f"machinery error: cannot read the defaults of style edition {se}: {err}", file=sys.stderr)
+        wtree(root, {f"f{se}/x.rs": "fn main() {}\n", f"f{se}/rustfmt.toml": f'style_edition = "{se}"\n'})
+        routes = {
+            "file": rf(["--print-config", "current", os.path.join(root, f"f{se}/x.rs")], root, home),
+            "--style-edition": rf(["--style-edition", se, "--print-config", "current", os.path.join(root, "e/x.rs")], root, home),
+            "--config": rf(["--config", "style_edition=" + se, "--print-config", "current", os.path.join(root, "e/x.rs")], root, home),
+        }
+        if routes["file"][0] != 0:
+            print(f"machinery error: cannot read the defaults of style edition {se}: {routes['file'][2]}", file=sys.stderr)
             sys.exit(2)
-        T["se_text"][se] = out
-        T["se_defaults"][se] = parse_cfg(out)
+        T["se_text"][se] = routes["file"][1]
+        T["se_defaults"][se] = parse_cfg(routes["file"][1])
+        if len({(r[0], r[1]) for r in routes.values()}) > 1 or T["se_defaults"][se].get("style_edition") != '"%s"' % se:
+            base = T["se_defaults"][se]
+            T["violations"].append((
+                "T defaults of style edition %s" % se,
+                "style-edition-defaults-differ-by-source",
+                {"spec": {"kind": "tables"}, "kind": "T",
+                 "differences": {k: [(o, base.get(o), parse_cfg(r[1]).get(o)) for o in base if parse_cfg(r[1]).get(o) != base.get(o)] for k, r in routes.items()},
+                 "rc": {k: r[0] for k, r in routes.items()}},
+            ))
     T["option_order"] = list(T["se_defaults"]["2015"].keys())
     T["thorough"] = (os.environ.get("VERIF_TIER") or (sys.argv[1] if len(sys.argv) > 1 else "")) == "thorough"
     T["se_dependent"] = sorted(
@@ -1283,6 +1297,9 @@ def explore(run):
     thorough = run.thorough
     T = tables()
     run.extra["style_edition_dependent_defaults"] = T["se_dependent"]
+    run.evaluated(15)
+    for cid, what, detail in T["violations"]:
+        run.violation(cid, what, detail)
     if len(T["se_dependent"]) < 2:  # style_edition itself + at least one more
         print("[C14] machinery error: no style-edition-dependent default found", file=sys.stderr)
         sys.exit(2)
@@ -1335,7 +1352,7 @@ def explore(run):
             if r.get("accepted"):
                 accepted += 1
             if r.get("cli_rejected"):
-                rejected.append(r["id"])
+                rejected.append(r["id"] + (" (accepted in a file)" if r.get("file_accepted") else " (rejected in a file as well)"))
             nt = T["se_defaults"]["2015"].get(spec["opt"]) != spec["val"]
         elif kind == "D":
             nt = True
@@ -1399,6 +1416,12 @@ def replay(path):
         T = tables()
         spec = det.get("spec")
         kind = det.get("kind")
+        if spec and spec.get("kind") == "tables":
+            for cid, what, detail in T["violations"]:
+                print("RESULT: violation", cid, what, json.dumps(detail, indent=1)[:3000])
+            if not T["violations"]:
+                print("RESULT: no violation on replay")
+            return 1 if T["violations"] else 0
         if spec and spec.get("kind") == "default-fixpoint":
             class R:  # minimal stand-in printing violations
                 def evaluated(self, n=1):
